@@ -188,6 +188,42 @@ func genMaxSatWCNF(r *Rng, tier string) MaxSatCase {
 	return c
 }
 
+// genMaxSatManySteps: mostly soft clauses with weights 3..12 over 4..6 variables and at most two
+// hard ones: the first model is far from the optimum, the optimisation loop takes several steps, and
+// the shrinking bound forces heavy relaxation literals at the top level between two steps.
+func genMaxSatManySteps(r *Rng, tier string) MaxSatCase {
+	n := r.Range(4, 6)
+	m := r.Range(10, 20)
+	c := MaxSatCase{Entry: "wcnf"}
+	sum := 0
+	for i := 0; i < m; i++ {
+		k := r.Range(1, 3)
+		cl := MSConstr{Lits: randClauseDistinct(r, n, k), AtLeast: 1, Weight: r.Range(3, 12)}
+		if i >= m-2 && r.Chance(1, 2) {
+			cl.Weight = 0 // hard
+		}
+		sum += cl.Weight
+		c.Constrs = append(c.Constrs, cl)
+	}
+	c.NbVars = n
+	c.Top = sum + r.Range(1, 900)
+	var sb strings.Builder
+	sb.WriteString(fmt.Sprintf("p wcnf %d %d %d\n", c.NbVars, len(c.Constrs), c.Top))
+	for _, cl := range c.Constrs {
+		w := cl.Weight
+		if w == 0 {
+			w = c.Top
+		}
+		sb.WriteString(fmt.Sprint(w))
+		for _, l := range cl.Lits {
+			sb.WriteString(" " + fmt.Sprint(l))
+		}
+		sb.WriteString(" 0\n")
+	}
+	c.Text = sb.String()
+	return c
+}
+
 func init() {
 	register(&Prop{
 		ID: "C04",
@@ -196,6 +232,7 @@ func init() {
 			{Name: "api", Weight: 1, Make: func(r *Rng, tier string) interface{} { return genMaxSatAPI(r, tier) }},
 			{Name: "wcnf", Weight: 1, Make: func(r *Rng, tier string) interface{} { return genMaxSatWCNF(r, tier) }},
 		},
+		Extra:   []ExtraGen{{Gen{Name: "wcnf-many-steps", Make: func(r *Rng, tier string) interface{} { return genMaxSatManySteps(r, tier) }}, 400, 10000}},
 		Run:     runMaxSatCase,
 		Cases:   defCases(4000, 100000),
 		Timeout: defDur(10*time.Second, 60*time.Second),
@@ -395,7 +432,16 @@ func runMaxSatCase(o *Oracle, d json.RawMessage, oc *Outcome) {
 		// same instance, no channel
 		s2, err := maxsat.ParseWCNF(strings.NewReader(c.Text))
 		if err == nil {
+			// every AppendClause of the optimisation loop tied to the mirror of its prologue, and the
+			// constraints the solver holds read again after each of them (constraints-stable)
+			var stop func()
+			if ms, ok := s2.(*maxsat.Solver); ok {
+				stop = mirrorAppends(o, oc, ms.VerifSolver(), "maxsat.Solver.Optimal(nil)")
+			}
 			res2 := s2.Optimal(nil, nil)
+			if stop != nil {
+				stop()
+			}
 			judge("maxsat.Solver.Optimal(nil)", res2.Status == solver.Unsat, res2.Weight, res2.Model)
 		}
 	}
